@@ -23,7 +23,7 @@ ASSUMPTIONS = ["active control points are determined by the reference span (nvmo
 FLOORS = {'quick': {'hull': 2500, 'bbox-contains': 2500, 'bbox-equals-net': 200, 'clamped-ends': 300, 'length': 40,
                     'find_ctrlpts': 800, 'hull-via-meval': 1500},
           'thorough': {'hull': 25000, 'hull-via-meval': 15000}}
-MANDATORY_TAGS = ['pdim1', 'pdim2', 'pdim3', 'rational', 'dim2', 'dim3', 'unclamped', 'clamped']
+MANDATORY_TAGS = ['pdim1', 'pdim2', 'pdim3', 'rational', 'dim2', 'dim3', 'unclamped', 'clamped', 'edit-then-read']
 TECHNIQUE = ("runtime monitoring: separating-hyperplane oracle on every evaluated point (targeted queries and all points "
              "intercepted at evaluators.*.evaluate) against the active control points of its knot span; min/max oracle for bbox; "
              "chord/polygon bounds for length_curve")
@@ -184,6 +184,55 @@ def check(case, ctx):
                      'the first control point', what='clamped-ends')
             ctx.near(G.evaluate_single(o, [b for a, b in doms]), last, 1e-9 * sc, 'clamped/end', 'evaluate_single(domain end) is not '
                      'the last control point', what='clamped-ends')
+    # ---- evaluate, edit the control net through a public route, read the sampled points again (no explicit evaluate) ------------------
+    #      the points handed out must lie in the hull / bounding box of the CURRENT control points
+    route = rng.choice(['ctrlpts', 'translate', 'scale', 'set_ctrlpts', 'weights' if sd['rational'] else 'ctrlpts'])
+    ctx.tag('edit-then-read')
+    from geomdl import operations as _ops
+    if route == 'ctrlpts':
+        o.ctrlpts = [[c * 0.25 + 3.0 for c in p] for p in o.ctrlpts]
+    elif route == 'translate':
+        _ops.translate(o, [7.5 * sc] * dim, inplace=True)
+    elif route == 'scale':
+        _ops.scale(o, 0.1, inplace=True)
+    elif route == 'weights':
+        o.weights = [w * rng.uniform(0.5, 2.0) for w in o.weights]
+    else:
+        newp = [[c * 0.5 - 2.0 for c in p[:dim]] + list(p[dim:]) for p in G.hom_pts_of(o)]
+        if pdim == 1:
+            o.set_ctrlpts(newp)
+        else:
+            o.set_ctrlpts(newp, *G.sizes_of(o))
+    S2 = G.defn_of(o)
+    sc2 = so.scale_of_defn(S2)
+    bb2 = o.bbox
+    pts2 = o.evalpts
+    ss = [o.sample_size] if pdim == 1 else list(o.sample_size)
+    doms2 = G.domains_of(o)
+    per = [meval.grid_params(a, b, w) for (a, b), w in zip(doms2, ss)]
+    tot = 1
+    for w in ss:
+        tot *= w
+    if ctx.check(len(pts2) == tot, 'edit-then-read/grid-size', 'sampled grid has %d points for sample sizes %r after a control net edit'
+                 % (len(pts2), ss), what='hull'):
+        for f in sorted(set([0, tot - 1] + [rng.randrange(tot) for _ in range(6)])):
+            rem, ii = f, []
+            for d in reversed(range(pdim)):
+                ii.append(rem % ss[d])
+                rem //= ss[d]
+            ii.reverse()
+            prm = [per[d][ii[d]] for d in range(pdim)]
+            if not so.clear_of_knots(S2, [float(x) for x in prm], 1e-9):
+                continue
+            if not judge_point(ctx, S2, prm, pts2[f], sc2, 'hull/after-%s' % ('edit'), 'hull'):
+                break
+            ctx.check(all(bb2[0][i] - 1e-9 * sc2 <= pts2[f][i] <= bb2[1][i] + 1e-9 * sc2 for i in range(dim)), 'bbox/point-outside',
+                      'after editing the control net (%s) sampled point %d lies outside the reported bounding box' % (route, f),
+                      what='bbox-contains')
+        if clamped:
+            ctx.near(pts2[0], S2.cart(tuple(0 for _ in S2.n)), 1e-9 * sc2, 'clamped/start', 'after editing the control net (%s) the sampled '
+                     'points do not start at the first control point' % route, what='clamped-ends')
+    S, sc = S2, sc2
     # ---- length bounds -----------------------------------------------------------------------------------------------------------------
     if pdim == 1 and not sd['rational']:
         for ss in (2, 7, 40):
